@@ -1,7 +1,7 @@
 (* C13 -- Registering a tracepoint in code returns a handle that removes exactly it. *)
 From Deep Require Import Base ConfigSvc ConfigSvcProofs.
-From DeepGen Require Import PService.
-From Deep Require Import PureSupport TieService.
+From DeepGen Require Import PService PRegistry.
+From Deep Require Import PureSupport TieRegistry.
 
 Theorem C13_invariant_reachable : forall ops, HInv (run true svc0 ops).
 Proof. exact hinv_reachable. Qed.
